@@ -419,6 +419,16 @@ pub fn family(name: &str, tier: Tier) -> Vec<Case> {
                 // mid-handshake legitimately fails to connect, so deviations start after the handshake
                 out.push(Case { scn: s, menu: vec![Action::RebindClient, Action::Drop, Action::Delay(3)], k: if quick { 1 } else { 2 }, extra: vec![], expect: Expect::Complete, injects: vec![], differential: false, first_index: 10, adv: None });
             }
+            // the server has plenty to send when the client's address changes: the new path is
+            // amplification-limited until it is validated
+            let mut s = Scenario::base("migrate/rebind-during-server-push");
+            s.tls = Tls::S2n;
+            s.tasks = vec![vec![Op::Sleep(900)]];
+            s.server_mode.push_streams = 2;
+            s.server_mode.push_size = 40_000;
+            s.client_accepts_uni = true;
+            s.horizon_ms = 120_000;
+            out.push(Case { scn: s, menu: vec![Action::RebindClient, Action::Drop], k: if quick { 1 } else { 2 }, extra: vec![], expect: Expect::Complete, injects: vec![], differential: false, first_index: 10, adv: None });
             // connection-id expiry: the stock minimum lifetime (60 s) in a 150 s keep-alive scenario
             let mut s = Scenario::base("migrate/rotation-60s");
             s.tls = Tls::S2n;
@@ -654,7 +664,7 @@ pub fn property(p: &str) -> Option<PropertySpec> {
         "C08" => spec(vec!["ack"]),
         "C09" => spec(vec!["loss"]),
         "C10" => spec(vec!["sendgate"]),
-        "C11" => Some(PropertySpec { families: vec!["data", "live", "flow", "lifecycle", "hs", "stray"], monitors: vec!["amp", "stray"] }),
+        "C11" => Some(PropertySpec { families: vec!["data", "live", "flow", "lifecycle", "hs", "stray", "migrate"], monitors: vec!["amp", "stray"] }),
         "C13" => Some(PropertySpec { families: vec!["migrate"], monitors: vec!["cid", "data", "live"] }),
         "C14" => Some(PropertySpec { families: vec!["tpe2e"], monitors: vec!["tpe2e", "fc", "data", "live"] }),
         "C06" => Some(PropertySpec { families: vec!["forge"], monitors: vec!["auth", "ack", "data", "live"] }),
